@@ -168,3 +168,66 @@ theorem mkDists_spec : ∀ (bs : List Backend) (cs : List Nat), bs.length = cs.l
   | _ :: _, [], h => by simp at h
 
 end NGF.SplitClients
+
+namespace NGF.SplitClients
+
+/-- the spec weight of a backendRef as the Gateway API defines it: 1 when unset -/
+def SpecRef.specWeight (s : SpecRef) : Nat := (s.weight.getD 1).toNat
+
+/-- the spec is inside the quantifier of C15: every weight is unset or in [0, 10⁶] -/
+def SpecRef.admissible (s : SpecRef) : Prop :=
+  match s.weight with
+  | none => True
+  | some w => 0 ≤ w ∧ w ≤ 1000000
+
+/-- `newBackendGroup` is a map: length, order, weights and validity of the graph refs are preserved, and a
+backend's target is its Service port iff the ref is valid (else the 500 upstream) -/
+theorem newBackendGroup_preserves (refs : List GraphRef) :
+    (newBackendGroup refs).length = refs.length ∧
+    (newBackendGroup refs).map (·.weight) = refs.map (·.weight.toNat) ∧
+    (newBackendGroup refs).map (·.valid) = refs.map (·.valid) ∧
+    (newBackendGroup refs).map value = refs.map (fun g => if g.valid then g.svcPort else invalidBackendRef) := by
+  induction refs with
+  | nil => simp [newBackendGroup]
+  | cons g t ih =>
+    obtain ⟨h1, h2, h3, h4⟩ := ih
+    simp only [newBackendGroup, List.map_cons, List.length_cons, List.length_map, List.map_map] at *
+    refine ⟨trivial, ?_, ?_, ?_⟩
+    · rw [h2]
+    · rw [h3]
+    · rw [h4]
+      cases hv : g.valid <;> simp [value, GraphRef.servicePortReference, hv]
+
+theorem createBackendRef_admissible (s : SpecRef) (h : s.admissible) :
+    (createBackendRef s).weight.toNat = s.specWeight ∧ (createBackendRef s).valid = s.resolves ∧
+    (createBackendRef s).svcPort = s.target := by
+  obtain ⟨w, r, t⟩ := s
+  cases w with
+  | none => simp [createBackendRef, effectiveWeight, SpecRef.specWeight]
+  | some w =>
+    simp only [SpecRef.admissible] at h
+    simp [createBackendRef, effectiveWeight, SpecRef.specWeight, h]
+
+/-- from the route spec to the backend group: one backend per backendRef, in order, with the spec weight
+(1 if unset); invalid refs are kept, with their weight, and target the 500 upstream -/
+theorem ruleBackends_spec (spec : List SpecRef) (h : ∀ s ∈ spec, s.admissible) :
+    (ruleBackends spec).length = spec.length ∧
+    (ruleBackends spec).map (·.weight) = spec.map (·.specWeight) ∧
+    (ruleBackends spec).map (·.valid) = spec.map (·.resolves) ∧
+    (ruleBackends spec).map value = spec.map (fun s => if s.resolves then s.target else invalidBackendRef) := by
+  obtain ⟨h1, h2, h3, h4⟩ := newBackendGroup_preserves (spec.map createBackendRef)
+  unfold ruleBackends
+  refine ⟨by simpa using h1, ?_, ?_, ?_⟩
+  · rw [h2, List.map_map]
+    apply List.map_congr_left
+    intro s hs; exact (createBackendRef_admissible s (h s hs)).1
+  · rw [h3, List.map_map]
+    apply List.map_congr_left
+    intro s hs; exact (createBackendRef_admissible s (h s hs)).2.1
+  · rw [h4, List.map_map]
+    apply List.map_congr_left
+    intro s hs
+    obtain ⟨_, a, b⟩ := createBackendRef_admissible s (h s hs)
+    simp [a, b]
+
+end NGF.SplitClients
